@@ -55,7 +55,7 @@ def main():
     try:
         for pid in ids:
             t0 = time.time()
-            p = subprocess.run([sys.executable, os.path.join(V, "check.py"), pid, tier], cwd=V, capture_output=True, text=True)
+            p = subprocess.run([sys.executable, os.path.join(V, "check.py"), pid, tier], cwd=V, capture_output=True, text=True, errors="replace")
             viol = [l for l in p.stdout.splitlines() if l.startswith("VIOLATION")]
             nofail = all("no-failing-input-found" in l for l in viol) if viol else False
             res[pid] = {"exit": p.returncode, "violations": len(viol), "only_no_failing_input": nofail, "wall_s": round(time.time() - t0, 1),
